@@ -374,6 +374,26 @@ class VM(Machine):
                 k += 1
         return None
 
+    def loop_targets(self, fr, ordinal):
+        """names bound by the target of the `ordinal`-th loop of the frame's function (so that sidecar invariants do not depend
+        on what the repository calls its loop variables)"""
+        k = 0
+        for n in ast.walk(fr.func.node):
+            if isinstance(n, (ast.For, ast.While)):
+                if k == ordinal:
+                    if isinstance(n, ast.While):
+                        return []
+                    return [x.id for x in ast.walk(n.target) if isinstance(x, ast.Name)]
+                k += 1
+        return []
+
+    def loop_value(self, fr, ordinal, position=0):
+        """current value of the position-th target name of that loop (None before the first iteration)"""
+        names = self.loop_targets(fr, ordinal)
+        if position >= len(names):
+            return None
+        return fr.locals.get(names[position])
+
     def loop_spec(self, fr, st):
         if not isinstance(st, ast.AST) or fr.func is None:
             return None
